@@ -466,6 +466,8 @@ func (a *AndExpr) String() string {
 
 // NullableVisit recursively determines whether an object is nullable.
 func (a *AndExpr) NullableVisit(rules map[string]*Rule) bool {
+	// Visit the operand: its own nullable flags are needed by InitialNames.
+	a.Expr.NullableVisit(rules)
 	return true
 }
 
@@ -503,6 +505,8 @@ func (n *NotExpr) String() string {
 
 // NullableVisit recursively determines whether an object is nullable.
 func (n *NotExpr) NullableVisit(rules map[string]*Rule) bool {
+	// Visit the operand: its own nullable flags are needed by InitialNames.
+	n.Expr.NullableVisit(rules)
 	return true
 }
 
@@ -540,6 +544,8 @@ func (z *ZeroOrOneExpr) String() string {
 
 // NullableVisit recursively determines whether an object is nullable.
 func (z *ZeroOrOneExpr) NullableVisit(rules map[string]*Rule) bool {
+	// Visit the operand: its own nullable flags are needed by InitialNames.
+	z.Expr.NullableVisit(rules)
 	return true
 }
 
@@ -577,6 +583,8 @@ func (z *ZeroOrMoreExpr) String() string {
 
 // NullableVisit recursively determines whether an object is nullable.
 func (z *ZeroOrMoreExpr) NullableVisit(rules map[string]*Rule) bool {
+	// Visit the operand: its own nullable flags are needed by InitialNames.
+	z.Expr.NullableVisit(rules)
 	return true
 }
 
@@ -594,6 +602,8 @@ func (z *ZeroOrMoreExpr) InitialNames() map[string]struct{} {
 type OneOrMoreExpr struct {
 	p    Pos
 	Expr Expression
+
+	Nullable bool
 }
 
 var _ Expression = (*OneOrMoreExpr)(nil)
@@ -614,12 +624,14 @@ func (o *OneOrMoreExpr) String() string {
 
 // NullableVisit recursively determines whether an object is nullable.
 func (o *OneOrMoreExpr) NullableVisit(rules map[string]*Rule) bool {
-	return false
+	// One or more repetitions of a nullable operand can match the empty string.
+	o.Nullable = o.Expr.NullableVisit(rules)
+	return o.Nullable
 }
 
 // IsNullable returns the nullable attribute of the node.
 func (o *OneOrMoreExpr) IsNullable() bool {
-	return false
+	return o.Nullable
 }
 
 // InitialNames returns names of nodes with which an expression can begin.
